@@ -356,7 +356,7 @@ def trace_job(pid, tier, seed, job, bins, tag, jkey):
         info = os.path.join(d, "info.json")
         p = subprocess.run(binp + ["trace", "--mode", job["mode"], "--seed", str(seed), "--runs", str(job["runs"]), "--steps", str(job["steps"]),
                             "--caps", ",".join(map(str, job["caps"])), "--classes", str(job["classes"]), "--inject", str(job.get("inject", 0)),
-                            "--trace", tr, "--out", info],
+                            "--trace", tr, "--out", info] + (["--window", "1"] if job.get("window") else []),
                            stdout=subprocess.PIPE, stderr=subprocess.STDOUT, text=True, timeout=3000)
         crashed = p.returncode != 0 or not os.path.exists(info)
         for f in os.listdir(SPEC):
@@ -603,6 +603,10 @@ def jobs_for(pid, tier):
     tbig = [dict(trace("trace-big", "map"), runs=(1 if q else 3), steps=(1500 if q else 2500), caps=[300], classes=400,
                  profiles=(["release"] if q else ["debug", "release"]))]
     tbigset = [dict(tbig[0], tag="trace-bigset", mode="set", steps=(700 if q else 1500))]
+    # one history in a container of 65 600 entries (slot indices beyond two bytes), observed through a window of
+    # watched keys: the first slots, the slots around index 65 536, the last slots, absent keys
+    thuge = [dict(trace("trace-huge", "map"), runs=1, steps=(250 if q else 1500), caps=[65600], classes=70100, window=True,
+                  profiles=(["release"] if q else ["debug", "release"]))]
     qcaps = [(2, 3), (3, 2), (0, 2), (2, 0)]
     tcaps = [(2, 3), (3, 2), (0, 2), (2, 0), (0, 0), (1, 1), (2, 2), (3, 3), (3, 4), (4, 3), (4, 4), (2, 4), (4, 2)]
     core = both("core", ["core"])
@@ -625,21 +629,21 @@ def jobs_for(pid, tier):
                   + both("bulkclone", ["bulk", "clone"], bigconsts={"MaxExtra": 1, "Vers": [0]})
                   + setcore + both("setbc", ["bulk", "clone"], mode="set", consts={"MaxExtra": 1}, bigconsts={"Vers": [0]})]
     table = {
-        "C01": shaped(core) + tmap + tbig + deep("core", ["core"]),
+        "C01": shaped(core) + tmap + tbig + thuge + deep("core", ["core"]),
         "C07": shaped(setcore + both("setbulk", ["bulk"], mode="set", consts={"MaxExtra": 1}, bigconsts={"Vers": [0]})) + tset + deep("setcore", ["core"], mode="set"),
         "C09": shaped(both("cursor", ["cursor"])) + shaped(setcore) + tmap + tset + deep("cursor", ["cursor"]) + deep("setcore", ["core"], mode="set"),
         "C10": shaped(both("cursor", ["cursor"]) + core) + setcore + tmap + tset + deep("cursor", ["cursor"]) + deep("setcore", ["core"], mode="set"),
-        "C11": both("entry", ["entry"]) + tmap + deep("entry", ["entry"]),
+        "C11": both("entry", ["entry"]) + tmap + thuge + deep("entry", ["entry"]),
         "C12": core + both("entry", ["entry"]) + setcore + tmap + tset
                # bulk construction over the element shapes too: Extend<&T> (Copy elements only) is reachable with the
                # plain tagged shape alone, and "the first key object is kept" is stored-key identity
                + shaped(both("bulk", ["bulk"], bigconsts={"MaxExtra": 1}) + both("setbulk", ["bulk"], mode="set", consts={"MaxExtra": 1}, bigconsts={"Vers": [0]})),
         "C13": prof(both("disjoint", ["disjoint"], consts={"Vers": [0], "MaxKs": 3}, bigconsts={"MaxKs": 4}), "asan", "miri") + tmap + tbig
-               + deep("disjoint", ["disjoint"], cap=4, MaxKs=3),
+               + deep("disjoint", ["disjoint"], cap=4, MaxKs=3) + thuge,
         # (MaxExtra = 2: an overflow that is not caused by the LAST item of the source - how far the source was consumed is part of the result)
         "C16": both("bulk", ["bulk"], consts={"MaxExtra": 2}, bigconsts={"MaxExtra": 1}) + both("setbulk", ["bulk"], mode="set", consts={"MaxExtra": 2}, bigconsts={"Vers": [0], "MaxExtra": 1}) + bulk3 + tmap + tset,
         "C18": shaped(both("unchecked", ["unchecked"], consts={"MaxKs": 3}, bigconsts={"Vers": [0], "MaxKs": 4})) + tmap + tbig
-               + deep("unchecked", ["unchecked"], cap=4, MaxKs=3),
+               + deep("unchecked", ["unchecked"], cap=4, MaxKs=3) + thuge,
         "C19": both("fmt", ["fmt", "cursor"]) + core + setcore + pairs("alg", ["algebra"], "set", qcaps[:2] if q else tcaps[:6])
                + ([J("fmt-n3", ["fmt"], consts={"Caps": [3], "Vers": [0], "Vals": [0]}), J("setfmt-n3", ["fmt"], mode="set", consts={"Caps": [3], "Vers": [0]})] if q else []),
         "C08": pairs("alg", ["algebra"], "set", qcaps if q else tcaps) + tset + tbigset + [j for j in micro_bin if j["mode"] == "set"],
@@ -672,7 +676,7 @@ def jobs_for(pid, tier):
                # the way out of a panicking callback (what the ledger reports there counts for C02 as well as for C04)
                + inj_sweeps,
         "C03": prof(shaped(core) + both("entry", ["entry"]) + shaped(both("bulk", ["bulk"], bigconsts={"MaxExtra": 1})) + shaped(setcore)
-                    + shaped(both("setbulk", ["bulk"], mode="set", consts={"MaxExtra": 1}, bigconsts={"Vers": [0]})), "asan", "miri"),
+                    + shaped(both("setbulk", ["bulk"], mode="set", consts={"MaxExtra": 1}, bigconsts={"Vers": [0]})), "asan", "miri") + thuge,
     }
     return table.get(pid)
 
